@@ -205,6 +205,17 @@ add('C25', 'exploration',
     'Held/violated on those executions only.',
     'Continuation programs are a fixed family with random ordering choices, not arbitrary programs; settings values come from the grid only.')
 
+add('C09', 'exploration',
+    'runtime monitoring: shadow identifier-space model (watermarks per initiator, fate of every used id) driven from the boundary; accept/classify oracle for openings, next-id comparison after every step, PRIORITY neutrality probes',
+    'Random histories for both roles on plain and h2c-upgraded connections: openings by the endpoint with user-chosen ids (next, skipping '
+    'ahead, 2^31-3..2^31-1, wrong parity, too low, above 2^31-1, valid id with a refused header list), peer openings by HEADERS and '
+    'PUSH_PROMISE with fresh, wrong-parity, skipped, reset and normally-ended ids, before and after the closed stream is forgotten and with '
+    'the local MAX_CONCURRENT_STREAMS saturated; PRIORITY frames (received and sent) on idle, live, closed, skipped and far-future ids '
+    'followed by openings at or below them. Every opening on the wire must be strictly increasing, of the right parity, <= 2^31-1 and carry '
+    'the id of the call; get_next_available_stream_id is compared with the model after every step; the reaction to each bad peer id must be '
+    'the class the statement names. Held/violated on those executions only.',
+    'Peer frames other than the judged opening are valid; HEADERS on live streams are not openings and belong to C06; ids <= 0 passed by the user are C29.')
+
 NOT_BUILT_REASON = 'check not built yet in this session (planned in DESIGN.md; no verdict claimed)'
 
 def main():
